@@ -753,8 +753,18 @@ pub async fn staked_flow(w: &mut World, m: &mut Mon, r: &mut R, g: usize) -> Opt
             let i = ix::configure_bank(gk, admin.pubkey(), w.banks[b].key, opt);
             let _ = w.exec(m, &[i], &[&admin]).await;
         }
+        // now and then the settings move to a new SOL price feed (what an admin does when it rotates
+        // the feed for all staked banks)
+        let new_feed = if r.gen_bool(0.4) {
+            let k = w.next_kp().pubkey();
+            let now = w.chain.now();
+            w.set_pyth(&k, PythPx::simple(150_000_000, -6, now));
+            Some(k)
+        } else {
+            None
+        };
         let edit = marginfi::instructions::StakedSettingsEditConfig {
-            oracle: None,
+            oracle: new_feed,
             asset_weight_init: if r.gen_bool(0.6) { Some(rand_weight(r)) } else { None },
             asset_weight_maint: if r.gen_bool(0.6) { Some(rand_weight(r)) } else { None },
             deposit_limit: if r.gen_bool(0.5) { Some(rand_u64(r)) } else { None },
@@ -765,8 +775,24 @@ pub async fn staked_flow(w: &mut World, m: &mut Mon, r: &mut R, g: usize) -> Opt
         let s = if r.gen_bool(0.85) { clone_kp(&admin) } else { w.user_kp(0) };
         let i = ix::edit_staked_settings(gk, s.pubkey(), edit);
         let _ = w.exec(m, &[i], &[&s]).await;
-        let i = ix::propagate_staked_settings(gk, w.banks[b].key, vec![ix::ro(oracle)]);
-        let o = w.exec(m, &[i], &[]).await;
+        // the caller presents the feed the settings name now, and (when that is refused) the one the
+        // bank still uses
+        let cur = staked_settings_of(&w.shadow.get(&ss).map(|a| a.data.clone()).unwrap_or_default()).map(|s| s.oracle).unwrap_or(oracle);
+        let bank_feed = w.bank(b).config.oracle_keys[0];
+        let mut o = w.exec(m, &[ix::propagate_staked_settings(gk, w.banks[b].key, vec![ix::ro(cur)])], &[]).await;
+        if !o.ok() && bank_feed != cur {
+            o = w.exec(m, &[ix::propagate_staked_settings(gk, w.banks[b].key, vec![ix::ro(bank_feed)])], &[]).await;
+        }
+        if new_feed.is_some() {
+            m.r.count(if o.ok() { "scen.staked_propagate_after_feed_rotation_accepted" } else { "scen.staked_propagate_after_feed_rotation_rejected" });
+        }
+        if o.ok() {
+            // keep the world's notion of the bank's price accounts in step with the bank
+            let kf = w.bank(b).config.oracle_keys[0];
+            if let OracleD::Staked { lst_mint, sol_pool, .. } = w.banks[b].oracle.clone() {
+                w.banks[b].oracle = OracleD::Staked { oracle: kf, lst_mint, sol_pool };
+            }
+        }
         m.r.count(if o.ok() { "scen.staked_propagate_accepted" } else { "scen.staked_propagate_rejected" });
     }
     Some(b)
